@@ -37,15 +37,21 @@ def shapeClass (r : SigV2Spec.Req) : String :=
   else if SigV2Spec.subresources.any fun q => count qnames q ≥ 2 then "subresource-duplicated"
   else "other"
 
-/-- finding class of the credentials a request presents -/
+/-- finding class of the credentials a request presents, from their shape alone. The repaired class
+    (`signature-double-encoded`: a `%` left in the `Signature` value after query decoding) is looked at
+    last, so that it is reported only for requests that show none of the open ones -/
 def credsClass (r : SigV2Spec.Req) : Option String :=
   match SigV2Spec.paramValues r (sp!"Signature"), SigV2Spec.paramValues r (sp!"Expires") with
-  | sg :: _, ex :: _ =>
-    if sg.any (· = 37) then some "signature-double-encoded"
-    else match SigV2Spec.expiresValue ex with
-      | some e => if e > SigV2.maxUnixTs then some "expires-out-of-range" else none
-      | none => none
-  | sg :: _, [] => if sg.any (· = 37) then some "signature-double-encoded" else none
+  | sg :: _, exs =>
+    let outOfRange := match exs with
+      | ex :: _ =>
+        (match SigV2Spec.expiresValue ex with
+          | some e => decide (e > SigV2.maxUnixTs)
+          | none => false)
+      | [] => false
+    if outOfRange then some "expires-out-of-range"
+    else if sg.any (· = 37) then some "signature-double-encoded"
+    else none
   | _, _ => none
 
 def specMode (m : String) : SigV2Spec.Mode := if m = "presigned" then .query else .header
